@@ -22,6 +22,13 @@ cp -r $SRC/${F}_demo/. $DST/demo/ 2>/dev/null
 log=$DST/runs.log; : > $log
 say() { echo "$@" | tee -a $log; }
 
+demo_cmd=$(grep -o 'run: .*' $DST/demo/WHERE.txt 2>/dev/null | head -1 | sed 's/^run: *//')
+# SEEDTEST_FAST=1: a change that was confirmed before (meta.json says so) is only applied and checked again
+if [ "${SEEDTEST_FAST:-}" = 1 ] && [ "$(jq -r .confirmed $DST/meta.json 2>/dev/null)" = true ]; then
+  say "fast mode: confirmation of an earlier run reused"
+  FASTMODE=1
+fi
+if [ -z "${FASTMODE:-}" ]; then
 git -C /repo worktree add -q --detach $WT HEAD || { say "cannot create worktree"; exit 2; }
 cleanup() { git -C /repo worktree remove --force $WT 2>/dev/null; rm -rf $WT; }
 trap cleanup EXIT
@@ -57,8 +64,9 @@ say "== demo WITH the change (must fail)"
 ( eval "$demo_cmd" ) >>$log 2>&1; rc_mut=$?
 say "   exit $rc_mut"
 cd /verif
+fi # FASTMODE
 confirmed=false
-if [ $rc_clean = 0 ] && [ $rc_build = 0 ] && [ $rc_suite = 0 ] && [ $rc_mut != 0 ]; then confirmed=true; fi
+if [ -n "${FASTMODE:-}" ]; then confirmed=true; elif [ $rc_clean = 0 ] && [ $rc_build = 0 ] && [ $rc_suite = 0 ] && [ $rc_mut != 0 ]; then confirmed=true; fi
 say "confirmed=$confirmed"
 
 # --- run checks against /repo with the patch
